@@ -20,6 +20,94 @@ def num(x):
     return "%d/%d" % (n, d)
 
 
+def observe_model(m, case, ca, np, CASADI_ATTRIBUTES):
+    params = [[p.symbol.name(), [int(p.symbol.size1()), int(p.symbol.size2())]] for p in m.parameters]
+    in_var = ca.veccat(*[p.symbol for p in m.parameters])
+    pvs = []
+    for pv in case["pvs"]:
+        vec = []
+        for name, shape in params:
+            vals = pv[name]
+            assert len(vals) == shape[0] * shape[1], "parameter %s: %d values for shape %s" % (name, len(vals), shape)
+            vec += [float(x) for x in vals]
+        pvs.append(ca.DM(vec) if vec else ca.DM(0, 1))
+
+    def to_mx(val):
+        if isinstance(val, ca.MX):
+            return val
+        if isinstance(val, (list, tuple)):
+            try:
+                return ca.MX(ca.DM(val))
+            except Exception:
+                return ca.vertcat(*[to_mx(x) for x in val])
+        if isinstance(val, np.ndarray):
+            return ca.MX(ca.DM(val))
+        if isinstance(val, ca.DM):
+            return ca.MX(val)
+        return ca.MX(float(val))
+
+    def ev(val, numel):
+        mx = to_mx(val)
+        f = ca.Function("a", [in_var], [mx])
+        out = []
+        for pv in pvs:
+            r = np.array(f(pv)).flatten(order="F").tolist()
+            if len(r) == 1 and numel != 1:
+                r = r * numel
+            out.append([num(x) for x in r])
+        return out
+
+    def classify(val):
+        if isinstance(val, ca.MX):
+            return "MX"
+        if isinstance(val, (bool, np.bool_)):
+            return "bool"
+        if type(val).__name__ == "_DefaultValue":
+            return "_DefaultValue"
+        if isinstance(val, (int, np.integer)):
+            return "int"
+        if isinstance(val, float):
+            return "float"
+        if isinstance(val, (list, tuple)):
+            return "list"
+        return type(val).__name__
+
+    cats = {}
+    for cat in CATS:
+        lst = []
+        for v in getattr(m, cat):
+            numel = int(v.symbol.size1() * v.symbol.size2())
+            attrs = {}
+            for a in ["value", "min", "max", "start", "fixed", "nominal"]:
+                val = getattr(v, a)
+                attrs[a] = {"tag": classify(val), "vals": ev(val, numel)}
+            lst.append({"name": v.symbol.name(), "numel": numel,
+                        "shape": [int(v.symbol.size1()), int(v.symbol.size2())],
+                        "ptype": v.python_type.__name__, "attrs": attrs})
+        cats[cat] = lst
+
+    f = m.variable_metadata_function
+    rebuilt = None
+    try:
+        if f.class_name() == "MXFunction":
+            mi = f.mx_in(0)
+            rebuilt = bool(mi.is_symbolic() and mi.name() == "in_var")
+    except Exception:
+        rebuilt = None
+    meta = []
+    for pv in pvs:
+        out = f(pv)
+        if not isinstance(out, (list, tuple)):
+            out = [out]
+        mats = []
+        for o in out:
+            arr = np.array(ca.DM(o)).reshape((o.size1(), o.size2()))
+            mats.append([[num(x) for x in row] for row in arr.tolist()])
+        meta.append(mats)
+    return {"params": params, "cats": cats, "meta": meta, "rebuilt": rebuilt,
+            "attr_order": list(CASADI_ATTRIBUTES)}
+
+
 def handler(case):
     import casadi as ca
     import numpy as np
@@ -40,93 +128,21 @@ def handler(case):
         else:
             m = gen.generate(parser.parse(case["text"]), "M", opts)
 
-        stage = "inspect"
-        params = [[p.symbol.name(), [int(p.symbol.size1()), int(p.symbol.size2())]] for p in m.parameters]
-        in_var = ca.veccat(*[p.symbol for p in m.parameters])
-        pvs = []
-        for pv in case["pvs"]:
-            vec = []
-            for name, shape in params:
-                vals = pv[name]
-                assert len(vals) == shape[0] * shape[1], "parameter %s: %d values for shape %s" % (name, len(vals), shape)
-                vec += [float(x) for x in vals]
-            pvs.append(ca.DM(vec) if vec else ca.DM(0, 1))
+        def observe():
+            return observe_model(m, case, ca, np, CASADI_ATTRIBUTES)
 
-        def to_mx(val):
-            if isinstance(val, ca.MX):
-                return val
-            if isinstance(val, (list, tuple)):
-                try:
-                    return ca.MX(ca.DM(val))
-                except Exception:
-                    return ca.vertcat(*[to_mx(x) for x in val])
-            if isinstance(val, np.ndarray):
-                return ca.MX(ca.DM(val))
-            if isinstance(val, ca.DM):
-                return ca.MX(val)
-            return ca.MX(float(val))
-
-        def ev(val, numel):
-            mx = to_mx(val)
-            f = ca.Function("a", [in_var], [mx])
-            out = []
-            for pv in pvs:
-                r = np.array(f(pv)).flatten(order="F").tolist()
-                if len(r) == 1 and numel != 1:
-                    r = r * numel
-                out.append([num(x) for x in r])
-            return out
-
-        def classify(val):
-            if isinstance(val, ca.MX):
-                return "MX"
-            if isinstance(val, (bool, np.bool_)):
-                return "bool"
-            if type(val).__name__ == "_DefaultValue":
-                return "_DefaultValue"
-            if isinstance(val, (int, np.integer)):
-                return "int"
-            if isinstance(val, float):
-                return "float"
-            if isinstance(val, (list, tuple)):
-                return "list"
-            return type(val).__name__
-
-        cats = {}
-        for cat in CATS:
-            lst = []
-            for v in getattr(m, cat):
-                numel = int(v.symbol.size1() * v.symbol.size2())
-                attrs = {}
-                for a in ["value", "min", "max", "start", "fixed", "nominal"]:
-                    val = getattr(v, a)
-                    attrs[a] = {"tag": classify(val), "vals": ev(val, numel)}
-                lst.append({"name": v.symbol.name(), "numel": numel,
-                            "shape": [int(v.symbol.size1()), int(v.symbol.size2())],
-                            "ptype": v.python_type.__name__, "attrs": attrs})
-            cats[cat] = lst
-
-        stage = "metadata"
-        f = m.variable_metadata_function
-        rebuilt = None
-        try:
-            if f.class_name() == "MXFunction":
-                mi = f.mx_in(0)
-                rebuilt = bool(mi.is_symbolic() and mi.name() == "in_var")
-        except Exception:
-            rebuilt = None
-        meta = []
-        for pv in pvs:
-            out = f(pv)
-            if not isinstance(out, (list, tuple)):
-                out = [out]
-            mats = []
-            for o in out:
-                arr = np.array(ca.DM(o)).reshape((o.size1(), o.size2()))
-                mats.append([[num(x) for x in row] for row in arr.tolist()])
-            meta.append(mats)
-        return {"params": params, "cats": cats, "meta": meta, "rebuilt": rebuilt,
-                "attr_order": list(CASADI_ATTRIBUTES)}
+        if not case.get("steps"):
+            stage = "inspect/metadata"
+            return observe()
+        stages = []
+        stage = "stage 0 (after generate)"
+        stages.append(observe())
+        for i, st in enumerate(case["steps"]):
+            stage = "simplify step %d %s" % (i + 1, st)
+            m.simplify(dict(st))
+            stage = "stage %d (after simplify %s)" % (i + 1, st)
+            stages.append(observe())
+        return {"stages": stages}
     except Exception as e:  # noqa - the failure stage and class are an outcome
         return {"exc": type(e).__name__, "msg": str(e)[:300], "stage": stage}
 
